@@ -65,6 +65,10 @@ impl RootCertStore {
     #[verifier::external_body]
     pub fn empty() -> (r: RootCertStore) ensures r.roots@ == Seq::<Root>::empty() { unimplemented!() }
     #[verifier::external_body]
+    pub fn is_empty(&self) -> (r: bool) ensures r == (self.roots@.len() == 0) { unimplemented!() }
+    #[verifier::external_body]
+    pub fn len(&self) -> (r: usize) ensures r == self.roots@.len() { unimplemented!() }
+    #[verifier::external_body]
     pub fn add_parsable_certificates(&mut self, certs: Vec<CertificateDer>) -> (r: (usize, usize)) ensures final(self).roots@ == old(self).roots@ + certs_of(certs@) { unimplemented!() }
     pub fn into(self) -> (r: Arc<RootCertStore>) ensures r.t == self { Arc::new(self) }
 }
